@@ -596,7 +596,9 @@ class PropertiesData(Properties):
         if inplace:
             f = self
         else:
-            f = self.copy(data=False)
+            # Note: `copy(data=False)` would also remove the data of
+            # any bounds, interior ring and metadata constructs
+            f = self.copy()
 
         f._set_component("data", data, copy=False)
 
